@@ -184,9 +184,11 @@ CLAIMS = {
         "configurations (1 and 2 simulations sharing model and mesh) and rejects five deliberately defective variants. TLC simulation-mode behaviours are replayed "
         "on real Elastic, Thermal and harness simulations: after every action the abstraction of the concrete state (flag, iteration count, current mesh, store) is "
         "compared with the specification state, and at every observing action K, C, M, F, the solution and named results are compared with a fresh simulation "
-        "built independently in the final configuration.",
-        note="Trusted: TLC; the adapters' mapping of abstract actions to API calls; the fresh-build oracle (new mesh object from the harness's own shadow coordinates). "
-        "Random-walk sampling of behaviours (seeded), not a transition cover; PhaseField/HyperElastic/InElastic/Beam/WeakForms adapters are listed in DESIGN.md as growth items.",
+        "built independently in the final configuration. Adapters: Elastic 2-D / 3-D, Thermal, Beam (2-D frame; mesh replacement replayed separately because a Beam simulation copies its meshes) and a harness _Simu subclass. "
+        "Direction B: wrappers installed from /verif record Assembly / Get_K_C_M_F / Save_Iter / Set_Iter events with a configuration fingerprint while the repository's own tests run (122 tests quick, tests/Simulations + tests/Models thorough); "
+        "Trace_Lifecycle.tla judges every event (NoStale, FlagHonoured, AppendOnly, PureRead) and must reject a corrupted copy of the trace.",
+        note="Trusted: TLC; the adapters' mapping of abstract actions to API calls; the fresh-build oracle (new mesh object from the harness's own shadow coordinates); the configuration fingerprint of the recorder. "
+        "Random-walk sampling of behaviours (seeded), not a transition cover; PhaseField/HyperElastic/InElastic/WeakForms adapters are growth items (their caches are reached by direction B only).",
         technique="TLA+ life-cycle specification, TLC exhaustive + negative variants; TLC behaviours replayed into real simulations with per-step abstraction comparison (direction A) + events recorded while the repository's own tests run validated by Trace_Lifecycle.tla (direction B)",
         design_ref="DESIGN.md 6/C14",
     ),
